@@ -144,12 +144,19 @@ def run(tier, seed, replay):
         if k % 3 == 2:
             # independently built image: compressed / zero / preallocated clusters, free clusters with stale content
             import foreign
-            top = foreign.rand_desc(rng, with_backing=False, allow_v2=False, cbs=[9, 9, 10], nclusters=rng.choice([8, 20, 40]))
+            for _ in range(8):
+                top = foreign.rand_desc(rng, with_backing=False, allow_v2=False, cbs=[10, 11, 12], nclusters=rng.choice([8, 20, 40]))
+                if any(foreign.Truth([top]).kind(gc) in ('unalloc', 'zero') for gc in range(top.size >> top.cluster_bits)):
+                    break
             try:
                 paths, _ = foreign.write_images(d, 'c17img_%d' % k, [top])
                 g = hist.Geom(top.cluster_bits, top.refcount_order, top.size, 9, (9, rng.choice([2, 3, 8]) << 9), (9, rng.choice([2, 3, 8]) << 9), punch=1)
                 ops = [o for o in hist.gen_ops(rng, g, rng.randrange(4, 14), mix={'W': 60, 'D': 10, 'F': 15, 'R': 10, 'K': 5}, flush_end=False) if o[0] != 'O']
-                image, init = 'image file ' + paths[0], foreign.Truth([top]).flat()
+                tr = foreign.Truth([top])
+                image, init = 'image file ' + paths[0], tr.flat()
+                init.fresh = [gc for gc in range((top.size + g.cs - 1) // g.cs) if tr.kind(gc) in ('unalloc', 'zero') and (gc + 1) * g.cs <= top.size]
+                # the host file is longer than the image needs and its tail holds stale bytes: new clusters land there
+                g.tail = (rng.choice([8, 24]) * g.cs, 0xEE)
             except ValueError:
                 image, init = None, None
         bases.append((g, ops, image, init))
@@ -178,9 +185,33 @@ def run(tier, seed, replay):
         # punch unsupported for the whole history
         cid = 'c17_%d_np' % k
         g2 = hist.Geom(g.cb, g.ro, g.size, g.bs, g.l2, g.rb, punch=0)
+        g2.tail = getattr(g, 'tail', None)
         text, sweeps = build_variant(cid, g2, ops, [], rng, image)
         variants.append((cid, text))
         meta[cid] = (g2, ops, sweeps, 'hole punching unsupported', init)
+        if image is not None:
+            # zeroing of a new cluster fails twice (punch, then the zero-write fallback): stale host bytes must not show up
+            for kk in range(3 if tier == 'quick' else 6):
+                cid = 'c17_%d_zw%d' % (k, kk)
+                if kk % 3 != 2 and getattr(init, 'fresh', None):
+                    # sub-cluster writes into clusters that need a new host cluster, each followed by a retry at another
+                    # offset of the same cluster: the rest of the cluster must read as zeros whichever attempt zeroed it
+                    zops, tag = [], 1
+                    for gc in rng.sample(init.fresh, min(len(init.fresh), 4)):
+                        for _ in range(2):
+                            zops.append(('W', gc * g.cs + 512 * rng.randrange(0, g.cs // 512), 512, tag))
+                            tag += 1
+                        if rng.random() < 0.3:
+                            zops.append(('F',))
+                    fl = ['fault ZW 0 %d %d' % (1 << 40, kk % 3)]
+                    text, sweeps = build_variant(cid, g, zops, fl, rng, image)
+                    variants.append((cid, text))
+                    meta[cid] = (g, zops, sweeps, 'faults: ' + '; '.join(fl), init)
+                    continue
+                fl = ['fault ZW 0 %d %d' % (1 << 40, kk)] if kk < 3 else ['fault ZW 0 %d %d' % (1 << 40, kk - 3), 'fault ZW 0 %d %d' % (1 << 40, kk - 1)]
+                text, sweeps = build_variant(cid, g, ops, fl, rng, image)
+                variants.append((cid, text))
+                meta[cid] = (g, ops, sweeps, 'faults: ' + '; '.join(fl), init)
         # random multi-request fault sets by kind/range
         for j in range(3 if tier == 'quick' else 10):
             cid = 'c17_%d_m%d' % (k, j)
@@ -228,7 +259,7 @@ def run(tier, seed, replay):
         p = qv.write_replay('C17', cid + '.json', json.dumps({'class': cls, 'what': desc, 'case_text': text}))
         violations.append({'replay': p})
         print('  finding [%s] %s: %s' % (cls, cid, desc[:330]))
-    shutil.rmtree(d, ignore_errors=True)
+    if not os.environ.get("KEEPW"): shutil.rmtree(d, ignore_errors=True)
     cov = {'evaluations': len(variants), 'distinct_nontrivial': qv.distinct_nontrivial([t for _, t in variants], needs=('W ', 'D ')), 'nontrivial_rule': 'distinct (history, fault set) scripts with at least one write or discard',
            'rule': 'for each base history one run per backend request index with that request failing (exhaustive per history in the thorough tier, sampled to 60 in quick), one run with hole punching unsupported, and random multi-request fault sets by (kind, host range, nth occurrence); recovery = faults off, flush_meta x4, snapshot, reopen, sweep',
            'samples': [{'geometry': g.desc(), 'ops': [hist.op_line(o) for o in ops]} for g, ops, _, _ in bases[:2]],
